@@ -13,6 +13,13 @@ mod verif_kani_scalarmath {
         assert!(isqrt(r * r - 1) == r - 1);
         assert!(isqrt(r * r + 2 * r) == r);
     }
+    // quick-tier subset of the sample: two roots, one of them beyond what a single-precision square root can represent
+    // (seed C18_A routed the computation through f32: wrong from v = 10 619 135 on)
+    #[kani::proof]
+    #[kani::unwind(2)]
+    fn isqrt_exact_two_samples() {
+        at(4097); at(16_777_217);
+    }
     #[kani::proof]
     #[kani::unwind(2)]
     fn isqrt_exact_around_sampled_squares() {
